@@ -108,6 +108,17 @@ def stepLine (s : St) (ws : List String) : St × String :=
         ({ s with fs := r.1 }, showOutcome r.2 ++ " " ++ listing r.1)
     | _, _, none, _ => (s, "bad-tmp")
     | _, _, _, _ => (s, "bad-op")
+  | ["syncr", exp, extra, k] =>
+    -- a synchronisation whose k-th unlink of the extra loop lost the race against another process
+    match k.toNat? with
+    | some k =>
+      let expected := names? exp
+      let extra := names? extra
+      if !(sameSet extra (extraOf s.fs expected)) || k ≥ extra.length then (s, "bad-order")
+      else
+        let s' := step s (.syncRaced extra k)
+        (s', showOutcome (syncRaced s.fs extra k).2 ++ " " ++ listing s'.fs)
+    | none => (s, "bad-op")
   | _ => (s, "bad-op")
 
 def main : IO Unit := run stepLine St.init
